@@ -1,9 +1,10 @@
 #!/bin/bash
-# vseedrun_wt.sh <patch.diff> <property> [scale] — like vseedrun.sh but in the scratch worktree /tmp/wt-rev
-# (VERIF_REPO/VERIF_BUILD), so /repo stays untouched and other work can go on.
+# vseedrun_wt.sh <patch.diff> <property> [scale] — like vseedrun.sh but in a scratch worktree (default /tmp/wt-rev,
+# build in /tmp/vb-rev; VSEED_WT / VSEED_VB choose others), so /repo stays untouched and other work can go on.
 P=$1; PROP=$2; S=${3:-1}
-WT=/tmp/wt-rev
+WT=${VSEED_WT:-/tmp/wt-rev}; VB=${VSEED_VB:-/tmp/vb-rev}
+[ -d $WT ] || git -C /repo worktree add --detach $WT HEAD >/dev/null 2>&1
 git -C $WT reset -q --hard; git -C $WT checkout -q --detach $(git -C /repo rev-parse HEAD)
 git -C $WT apply "$P" || { echo "patch does not apply"; exit 3; }
-VERIF_EVIDENCE=/tmp/vb-rev/evidence VERIF_REPO=$WT VERIF_BUILD=/tmp/vb-rev VERIF_SCALE=$S timeout 1500 python3 /verif/vcheck.py $PROP 2>&1 | grep -E "failing class|^  [a-z]|VIOLATION|property=|BUILD-FAILED" | head -${TAILN:-6}
+VERIF_EVIDENCE=$VB/evidence VERIF_REPO=$WT VERIF_BUILD=$VB VERIF_SCALE=$S timeout 1500 python3 /verif/vcheck.py $PROP 2>&1 | grep -E "failing class|^  [a-z]|VIOLATION|property=|BUILD-FAILED" | head -${TAILN:-6}
 git -C $WT reset -q --hard
